@@ -436,6 +436,34 @@ Definition route_holds (rq : request) (r : route) : bool := rule_holds rq (r_mat
 Definition first_route (rs : list route) (rq : request) : option route := find (route_holds rq) rs.
 Definition all_routes (rs : list route) (rq : request) : list route := filter (route_holds rq) rs.
 
+(* ------------------------------------------------------------------ fast index (virtualhost.go addRouteBase / GetRouteFromHeaderKV) *)
+(* RouteRule.HeaderMatchCriteria: http rule kinds expose the header matchers without the "method" entries, the RPC kind all
+   of them, variable and DSL kinds none *)
+Definition criteria (m : rmatch) : option (list hmatch) :=
+  if negb (String.eqb (m_prefix m) "") then Some (filter (fun h => negb (is_method h)) (m_headers m))
+  else if negb (String.eqb (m_path m) "") then Some (filter (fun h => negb (is_method h)) (m_headers m))
+  else match m_regex m with
+  | Some _ => Some (filter (fun h => negb (is_method h)) (m_headers m))
+  | None => match m_vars m with
+            | _ :: _ => None
+            | [] => match m_dsl m with _ :: _ => None | [] => Some (m_headers m) end
+            end
+  end.
+
+(* a route is recorded in fastIndex[key][value] when it has exactly ONE header matcher and that one is an exact value *)
+Definition index_key_is (k v : string) (r : route) : bool :=
+  match criteria (r_match r) with
+  | Some [h] => match hm_regex h with
+                | None => andb (String.eqb (hm_name h) k) (String.eqb (hm_value h) v)
+                | Some _ => false
+                end
+  | _ => false
+  end.
+
+(* valueMap[value] = route: a later route with the same key and value overwrites an earlier one *)
+Definition fast_lookup (rs : list route) (k v : string) : option route :=
+  fold_left (fun acc r => if index_key_is k v r then Some r else acc) rs None.
+
 Definition routes_of (c : config) (i : nat) : list route :=
   match nth_error c i with Some v => vh_routes v | None => [] end.
 
@@ -453,13 +481,23 @@ Definition match_all (c : config) (t : table) (rq : request) : list route :=
   | Some i => all_routes (routes_of c i) rq
   end.
 
+(* routersImpl.MatchRouteFromHeaderKV: the route recorded under key/value in the selected virtual host (not checked
+   against the request) *)
+Definition match_from_kv (c : config) (t : table) (rq : request) (k v : string) : option route :=
+  match find_vhost t (get_var rq var_host) with
+  | None => None
+  | Some i => fast_lookup (routes_of c i) k v
+  end.
+
 (* ------------------------------------------------------------------ correspondence cases *)
 Definition berr_code (e : berr) : nat :=
   match e with ENilConfig => 1 | ERoute => 2 | ENoVirtualHost => 3 | EDupVirtualHost => 4 | EDupHostPort => 5 | ENoVirtualHostPort => 6 end.
 
 (* one lookup observed on the Go side: request, index of the virtual host the probe table selected (None = none),
-   cluster of MatchRoute's answer (None = nil), clusters of MatchAllRoutes' answer *)
-Definition lookup_obs := (request * option nat * option string * list string)%type.
+   cluster of MatchRoute's answer (None = nil), clusters of MatchAllRoutes' answer, and for some (key, value) pairs the
+   cluster of MatchRouteFromHeaderKV's answer *)
+Definition kv_obs := (string * string * option string)%type.
+Definition lookup_obs := (request * option nat * option string * list string * list kv_obs)%type.
 (* configuration, error class of NewRouters (0 = accepted), lookups *)
 Definition rt_case := (config * nat * list lookup_obs)%type.
 
@@ -476,10 +514,11 @@ Fixpoint strs_eqb (a b : list string) : bool :=
 
 Definition lookup_ok (c : config) (t : table) (o : lookup_obs) : bool :=
   match o with
-  | (rq, vh, one, all) =>
+  | (rq, vh, one, all, kvs) =>
       andb (opt_nat_eqb (find_vhost t (get_var rq var_host)) vh)
       (andb (opt_str_eqb (option_map r_cluster (match_route c t rq)) one)
-            (strs_eqb (map r_cluster (match_all c t rq)) all))
+      (andb (strs_eqb (map r_cluster (match_all c t rq)) all)
+            (forallb (fun x => match x with (k, v, got) => opt_str_eqb (option_map r_cluster (match_from_kv c t rq k v)) got end) kvs)))
   end.
 
 Definition rt_case_ok (k : rt_case) : bool :=
